@@ -1,4 +1,4 @@
-from copy import copy
+from copy import copy, deepcopy
 import os
 from typing import (  # noqa: F401
     Any,
@@ -539,6 +539,8 @@ class Node:
         mapping_values = list()
         for item in attr_node.seq_items():
             # we've already checked that it's a SequenceNode above
+            # the item may be used elsewhere too, so don't modify it
+            item = Node(deepcopy(item.yaml_node))
             key_node = item.get_attribute(key_attribute).yaml_node
             item.remove_attribute(key_attribute)
             if (
@@ -778,6 +780,8 @@ class Node:
 
         new_value = list()
         for key_node, value_node in attr_node.yaml_node.value:
+            # the item may be used elsewhere too, so don't modify it
+            value_node = deepcopy(value_node)
             # filter out key atttribute
             value_node.value = [
                     (k, v) for k, v in value_node.value
